@@ -277,6 +277,14 @@ pub fn world(ch: &mut Chooser) -> World {
         // the unknown type only occurs in the program when the instance is declared
         w.violated.insert("P0022");
     }
+    // identifiers are case-insensitive: the statements of the host may spell every name in upper case
+    let refcase = ch.pick("references", &["as-declared", "in-upper-case"], 1);
+    let (inv_s, pre_s, stmt) = if refcase == 1 {
+        let up = |t: &str| -> String { t.split(' ').map(|w| if w.starts_with('\'') { w.to_string() } else { w.to_uppercase() }).collect::<Vec<_>>().join(" ") };
+        (up(inv_s), up(pre_s), up(&stmt))
+    } else {
+        (inv_s.to_string(), pre_s.to_string(), stmt)
+    };
     let (hopen, hclose) = if host_kind == 0 { ("FUNCTION_BLOCK Host", "END_FUNCTION_BLOCK") } else { ("PROGRAM Host", "END_PROGRAM") };
     let host_words = format!(
         "{} VAR_INPUT a_in : INT ; END_VAR VAR_OUTPUT q_out : INT ; END_VAR VAR {}x : {} ; y : INT ; lv : {}{} ; arr : Arr ; str : STRING ; END_VAR {} {} {} {} {} q_out := y ; {}",
